@@ -23,7 +23,7 @@ Record ctx := Ctx {
   c_query : msg;                 (* query: what Q() returns *)
   c_client_opt : option opt;     (* clientOpt, may be nil *)
   c_resp : option msg;           (* resp *)
-  c_rid : N;                     (* identity of the *dns.Msg object in resp (pointer compare in cache) *)
+  c_rid : N;                     (* identity of the dns.Msg object in resp (pointer compare in cache) *)
   c_resp_opt : option opt;       (* respOpt: nil iff clientOpt == nil *)
   c_upstream_opt : option opt;   (* upstreamOpt *)
   c_from_udp : bool;             (* ServerMeta.FromUDP *)
@@ -96,7 +96,7 @@ Definition chain_result_of (c : ctx) (err : option N) : chain_result :=
   end.
 
 Section Handle.
-  Variable truncate : N -> msg -> msg.     (* (*dns.Msg).Truncate(size) *)
+  Variable truncate : N -> msg -> msg.     (* Msg.Truncate(size) *)
   Variable packs : msg -> bool.            (* packMsgPayload(m) returns no error *)
 
   (** Handle, from the point where Entry.Exec has returned with context [c]
@@ -149,17 +149,19 @@ Definition dropped (m m' : msg) : bool :=
   || (length (m_ns m') <? length (m_ns m))%nat
   || (length (m_extra m') <? length (m_extra m))%nat.
 
+Definition ends_with_opt (ex : list rr) : bool :=
+  match rev ex with OPT _ :: _ => true | _ => false end.
+
 Definition extra_rel (ex ex' : list rr) : bool :=
   list_eqb rr_eqb ex ex'
   || match pop_opt ex with
      | Some (rest, o) =>
        match pop_opt ex' with
-       | Some (rest', o') => opt_eqb o o' && is_prefix_rr rest' rest && no_opt_after rest' ex'
+       | Some (rest', o') => opt_eqb o o' && is_prefix_rr rest' rest && ends_with_opt ex'
        | None => false
        end
      | None => is_prefix_rr ex' ex
-     end
-with no_opt_after (rest' ex' : list rr) : bool := (length ex' =? S (length rest'))%nat.
+     end.
 
 Definition trunc_rel (m m' : msg) : bool :=
   msg_eqb (with_sections (with_tc m false) [] [] []) (with_sections (with_tc m' false) [] [] [])
